@@ -2,7 +2,7 @@
 from fractions import Fraction
 from .. import spaces, refmodel, harness
 from ..harness import Ctx, watchdog
-from ..lib import ds_shards, ds_expected, tt, scheme_of
+from ..lib import ds_shards, ds_expected, tt, scheme_of, EarlierResults
 
 ID = 'C13'
 _lib = {}
@@ -29,7 +29,7 @@ def init_worker(cfg):
 CORE = [spaces.UNIFYING, spaces.ZERO_HEAVY, spaces.B3LTB4, spaces.PSEUDO_05]
 
 
-def check_case(ctx, ds, lname, n, schemes, dataset_obj=None, alg_obj=None, origin=None):
+def check_case(ctx, ds, lname, n, schemes, dataset_obj=None, alg_obj=None, origin=None, scheme_objs=None):
     from ..lib import mk_dataset, mk_scheme, labels_for, Back, wellformed
     labels = labels_for(lname, n)
     universe = spaces.universe_of(ds)
@@ -39,7 +39,7 @@ def check_case(ctx, ds, lname, n, schemes, dataset_obj=None, alg_obj=None, origi
     for s in schemes:
         table = refmodel.ref_table(universe, ds, s[0], s[1])
         ved, score, ranking = refmodel.ref_copeland(universe, table)
-        scheme = mk_scheme(s)
+        scheme = scheme_objs[s] if scheme_objs and s in scheme_objs else mk_scheme(s)
         for one, reused in ((True, False), (False, False), (True, True)):
             case = {'cfg': {}, 'dataset': ds, 'labels': lname, 'n': n, 'scheme': s, 'one': one, 'reused_object': reused,
                     'mutated_in_place_from': origin}
@@ -58,6 +58,8 @@ def check_case(ctx, ds, lname, n, schemes, dataset_obj=None, alg_obj=None, origi
             except Exception as e:
                 ctx.violation('copeland-raises', case, None, ranking, exc=e)
                 continue
+            _ = c.kemeny_score
+            _lib.setdefault('earlier', EarlierResults()).check_and_remember(ctx, ('copeland', reused), c, case)
             if len(c.consensus_rankings) != 1:
                 ctx.violation('copeland-number-of-rankings', case, len(c.consensus_rankings), 1)
                 continue
@@ -108,8 +110,9 @@ def histories(ctx, ds0, lname, n, schemes):
     for what, after in mutation_histories(ds0):
         for s in schemes:
             alg = _lib['A']()
-            d = prepare_mutated(ds0, labels, what, warm=lambda dd: alg.compute_consensus_rankings(dd, mk_scheme(s), True))
-            check_case(ctx, after, lname, n, [s], dataset_obj=d, alg_obj=alg, origin=[ds0, what])
+            so = mk_scheme(s)     # ONE scheme object for the run before and the run after the mutation
+            d = prepare_mutated(ds0, labels, what, warm=lambda dd: alg.compute_consensus_rankings(dd, so, True))
+            check_case(ctx, after, lname, n, [s], dataset_obj=d, alg_obj=alg, origin=[ds0, what], scheme_objs={s: so})
             ctx.count('executions_after_run_mutate_on_the_same_objects')
 
 
